@@ -1,7 +1,7 @@
 (** Model driver for C18. *)
 From Verif.Base Require Import Prelude Sexp AwaitTypes AwaitCodec.
 From Verif.Gen Require Import ErrorsGen.
-From Verif.Model Require Import Concurrent.
+From Verif.Model Require Import Concurrent ConcurrentFifo.
 Open Scope Z_scope.
 
 Definition sx_delivery (s : sexp) : delivery :=
@@ -12,4 +12,8 @@ Definition dispatch (s : sexp) : sexp :=
   if t =? 0 then   (* replay ids log -> per-waiter outcome (option) *)
     of_list (fun w => of_opt of_outcome (snd w))
             (replay is_retryable_error (map sx_rid (sx_list (sx_arg 0 s))) (map sx_delivery (sx_list (sx_arg 1 s))))
+  else if t =? 1 then   (* fifo_log ids arrivals (all callers waiting in request order) -> ((k msg) ...) as (k index-in-arrivals) *)
+    let ids := map sx_rid (sx_list (sx_arg 0 s)) in
+    of_list (fun d => match d with Deliver k _ => At (Z.of_nat k) end)
+            (fifo_log is_retryable_error ids (request_order ids) (map sx_inmsg (sx_list (sx_arg 1 s))))
   else At (-999).
